@@ -161,6 +161,28 @@ func (s *scene) inbound(a act) (toTun, panicked bool) {
 			other = "f2"
 		}
 		innerSrc = s.node(other).ID.IP
+		if nPrior++; nPrior%2 == 0 {
+			// the router the packet CLAIMS to come from has sent that very packet itself a moment ago (sealed by its own
+			// session): whatever the local router remembers about that connection, the next frame is judged by the
+			// session that unseals it
+			on := s.node(other)
+			gp := packet(on.ID.IP, s.me.ID.IP, a.Proto, 40000, a.Dport)
+			if gf, err := on.Builder.NewFrameV1(on.ID.IP, s.me.ID.IP, frame.NetworkTraffic, nil, gp, nil); err == nil {
+				if gf.Seal(on.St.GetSession(s.me.ID.IP)) == nil {
+					raw, _ := gf.FrameDataWithMargins(0, 0)
+					_, _ = s.ms.W.DeliverRaw(on, s.me, append([]byte(nil), raw...))
+				}
+				gf.ReturnToPool()
+			}
+			for drained := false; !drained; {
+				select {
+				case <-s.me.Tun.SendFrame:
+				default:
+					drained = true
+				}
+			}
+			s.ms.W.Inflight = nil
+		}
 	case "inner-dst-differs":
 		innerDst = netip.MustParseAddr("fd00::2")
 	}
@@ -247,7 +269,7 @@ func cfgKey(svcs []svc, isolate bool, friends string) string {
 
 func main() { vf.Main("C06", "model_checking", run) }
 
-var nExt int
+var nExt, nPrior int
 
 func run(c *vf.Ctx) {
 	c.Rule("M: TLC enumerates 265 configurations (none, every single service over 6 schemes x 4 ports x 5 access rules, 144 two-service combinations) x genuine packets (4 senders x 4 protocols x 5 ports), not-what-they-claim variants, established flows with and without isolation, outbound packets (source, 5 destination kinds, isolation): 18k cases with the allowed verdict. R: every configuration the real parser accepts installed in a real router; quick executes a seeded sample of the packet cases per configuration, thorough all; CheckInboundTrafficPolicy is also swept over protocols 0..255 x ports {0,1,p-1,p,p+1,65535}. T: observed verdicts judged by TLC. distinct = distinct (configuration, packet case)")
